@@ -1544,7 +1544,9 @@ where
                                 });
                             }
 
-                            obj.put(DataElement::new(*tag, vr, DataSetSequence::empty()));
+                            // a data set sequence always has the VR SQ,
+                            // even if the attribute is private or unknown
+                            obj.put(DataElement::new(*tag, VR::SQ, DataSetSequence::empty()));
                         } else {
                             return Err(ApplyError::MissingSequence {
                                 selector: selector.clone(),
